@@ -300,7 +300,8 @@ def decide_equal(hyps, lhs, rhs, timeout_s=10.0, rng=None, n_cross=3, assume_def
             # exp/log/sqrt-like atoms are uninterpreted in the SMT encoding: a model is a counterexample only if the two sides
             # really differ when evaluated at it
             try:
-                rel, a_, b_ = _numeric_diff(l, r, env_to_q(env))
+                # the constant pi is a bounded variable of the SMT encoding: the re-evaluation uses the real one
+                rel, a_, b_ = _numeric_diff(l, r, {k: v for k, v in env_to_q(env).items() if k != "pi"})
                 if rel <= MP.mpf(10) ** (-20):
                     return Verdict("undecided", be, "normal form inconclusive; the solver model is an artefact of uninterpreted transcendental atoms "
                                    "(both sides evaluate to %s there)" % a_, seconds=time.time() - t0, cases=len(cases))
